@@ -177,6 +177,16 @@ def build_state(case):
     return s
 
 
+def mirrored(case):
+    """the same case with every network parameter multiplied by -0.5 (another, equally admissible parameter set of the same shapes)"""
+    def m(x):
+        return [m(y) for y in x] if isinstance(x, list) else -0.5 * x
+    out = dict(case, am={k: m(v) for k, v in case["am"].items()})
+    if case.get("ph"):
+        out["ph"] = {k: m(v) for k, v in case["ph"].items()}
+    return out
+
+
 def reinit_and_set(state, case):
     """lifecycle step used by histories: reinitialise (the networks get NEW parameter objects), then write the case's parameters again"""
     state.reinitialize_parameters()
